@@ -260,6 +260,11 @@ def count_errors(y: np.ndarray, home_streak_min: int,
                         is_in_home_streak = False
                         home_streak_len = 0
 
+            # A team cannot play against itself. This was already counted as
+            # error above and there is no slot for it in the pairing table.
+            if team_1 == team_2:
+                continue
+
             # now we need to check for the game separation difference
             idx: int = ((team_1 * (team_1 - 1) // 2) + team_2) \
                 if team_1 > team_2 \
